@@ -30,7 +30,7 @@ RULE = (
     "tensor term and all pairs; states = distinct (dense vector, bonds, centre); transitions = API calls"
 )
 ASSUMPTIONS = [
-    "values are compared with the dense contraction of the implementation's own (possibly truncated) tensors to 1e-10; the distance to the ideal dense result is bounded by precision*sqrt(N-1) whenever the bond cap does not bind",
+    "values are compared with the dense contraction of the implementation's own (possibly truncated) tensors to 1e-10; the distance to the ideal dense result is bounded by (N-1)*precision whenever the bond cap does not bind",
     "MPO @ MPO truncates with the package defaults (1e-5)",
 ]
 CHUNK = 1
